@@ -68,7 +68,7 @@ CLAIMED.update({
 
 CLAIMED.update({
     "C18": dict(
-        text="Deductive proof (Verus) of the real csleep / load / store / strobe / asm statement generators against the contract of asm() proved in U-asm: csleep(n) is accepted exactly for 2..10 and emits instructions whose datasheet cycle counts sum to n, consisting only of NOP, STA/DEC DUMMY and adjacent PHA/PLA pairs, all marked protected; it resets the generator's belief about N/Z. load/store/strobe emit exactly one protected instruction with the right mnemonic (and for a strobe on a constant pointer the named address); an asm statement becomes one inline line with the declared size.",
+        text="Deductive proof (Verus) of the real csleep / load / store / strobe / asm statement generators against the contract of asm() proved in U-asm: csleep(n) is accepted exactly for 2..10 and emits instructions whose datasheet cycle counts sum to n, consisting only of NOP, STA/DEC DUMMY and adjacent PHA/PLA pairs, all marked protected; it resets the generator's belief about N/Z. load/store/strobe emit exactly one protected instruction with the right mnemonic (and for a strobe on a constant pointer the named address); an asm statement becomes one inline line with the declared size. generate_statement whole (Verus, recursive on blocks): the log of generator calls is the source order, each statement handed once to the generator of its kind (strobe, load, store, asm, csleep among them), a block being its statements in order.",
         note="Partial: 'executes exactly once in source order through control flow' is whole-generator semantics (C01); the optimiser's handling of protected lines is the C02 unit. DUMMY is assumed to be a zero-page char (A-dummy, feature atari2600). Cycle table from the MOS datasheet (A-isa). Callee contracts are those proved in U-asm.",
         technique="contract-based deductive verification (Verus; callers checked against the callee contract proved in another unit; functions extracted mechanically from /repo)",
         design="DESIGN.md section 5, C18"),
@@ -84,7 +84,7 @@ CLAIMED.update({
 
 CLAIMED.update({
     "C14": dict(
-        text="Deductive proof (Verus) of the structural half of inlining on the real code: append_code copies every line of the callee, suffixing exactly the label definitions and the operands of branches/JMP with `inline<counter>` and changing nothing else (mnemonic, sizes, cycles, inline-assembly and comment lines); suffixing is injective, so a branch of the expansion resolves to a label of the expansion exactly when it did in the callee; push_code uses a fresh counter, appends the renamed clone after the caller's code followed by the end label, and fails with an error (no panic) when the callee has no code yet; a `return` in an inline function jumps to the label that becomes that end label, a called function returns by RTS; after a call, inlined or not, the generator forgets what it believed about N/Z. BOUNDED stand-in (labelled): the same programs with and without `inline` run on the 6502 interpreter.",
+        text="Deductive proof (Verus) of the structural half of inlining on the real code: append_code copies every line of the callee, suffixing exactly the label definitions and the operands of branches/JMP with `inline<counter>` and changing nothing else (mnemonic, sizes, cycles, inline-assembly and comment lines); suffixing is injective, so a branch of the expansion resolves to a label of the expansion exactly when it did in the callee; push_code uses a fresh counter, appends the renamed clone after the caller's code followed by the end label, and fails with an error (no panic) when the callee has no code yet; a `return` in an inline function jumps to the label that becomes that end label, a called function returns by RTS; after a call, inlined or not, the generator forgets what it believed about N/Z. BOUNDED stand-in (labelled): the same programs with and without `inline` run on the 6502 interpreter. push_code whole: the caller's code is followed by the callee's lines renamed with a fresh counter and then by exactly the label that the renamed `JMP .endof` of an early return names.",
         note="Partial: behavioural equivalence of the inlined and the called placement (live registers at the call site, parameter passing, flags) is whole-program semantics and is not decided. Derived Clone assumed structural; String as hash key; std::fmt; asm()/append_* contracts proved in U-asm/U-size and reused as stubs.",
         technique="contract-based deductive verification (Verus; modular: callers verified against callee contracts proved in other units)",
         design="DESIGN.md section 5, C14"),
